@@ -1,6 +1,7 @@
 import CogentModel.Model.Optimiser
 import CogentModel.Proofs.Optimiser
 import CogentModel.Proofs.OptimiserProj
+import CogentModel.Proofs.OptimiserScoped
 import Mathlib.Algebra.Order.Group.Defs
 /-! # C16 — nested-model initialisation and optimisation never lose likelihood
 
@@ -212,14 +213,7 @@ cell `(i,j)`: `cellRate rich projected (i,j) · π_ref = π_j · cellRate simple
 Why not: with k ≥ 2 rules covering a cell the factor is `(π_j/π_ref)^k`, so the statement needs the
 "exactly one rule per cell" bookkeeping on top of `projection_not_same_partial`; the per-rule
 identity above is the code-specific part.  The whole pipeline (equal exchangeabilities ⇒ equal Q
-⇒ equal lnL) is exercised on real data for every stationary → GN / ssGN pair by `spec_check`.
-
-FULL STATEMENT (not proved): `scoped_rules_preserve_values` — for `update_scoped_rules rich null`:
-every (parameter, edge) covered by a rich rule gets the value the nested rules give that
-(parameter, edge).  Not modelled in Lean (dict-of-frozenset keying, set iteration order); it is
-exercised by the real-data scoping nestings of `spec_check`, which found that the statement is
-FALSE as the code stands: an edge-scoped rich rule whose parameter has no nested rule makes
-`matches[0]` raise IndexError (known finding C16-scoped-rule-without-nested-counterpart). -/
+⇒ equal lnL) is exercised on real data for every stationary → GN / ssGN pair by `spec_check`. -/
 
 example : projectNotSame (· * ·) (· / ·) (1 : Rat) (fun j => [1/10, 2/10, 3/10, 4/10].getD j 0)
     "ref_cell" (fun n => n == "length")
@@ -238,5 +232,79 @@ example : paramMapping exGTR exHKY
     = .ok [("kappa", ["A/G", "C/T"]), ("ref_cell", ["A/C", "A/T", "C/G", "ref_cell"])] := by decide
 /-- a non-nested pair is rejected: GTR is not nested in HKY85 -/
 example : paramMapping exHKY exGTR = .error .assertion := by decide
+
+/-! ## `update_scoped_rules` (model `Model/ScopedRules.lean`, the code as it is now) -/
+section ScopedSec
+open CogentModel.ScopedRules
+
+/-- **Every (parameter, edge) of the result carries the nested value.**  For the dict views
+(`_get_keyed_rule_indices`) of ANY rich and null rule lists that are well-formed (`WF`: keys
+faithful, scopes of one parameter disjoint in each list, no singular-`"edge"` mangling), if
+`update_scoped_rules` returns `out` then every rule `o ∈ out`, on every edge `e` of its scope, has
+the value the null rules give `(o.par, e)` whenever the null defines it — through the 1-to-1
+branch, the "free" branch (`extend_rule_value`), the single-match branch and the no-match branch. -/
+theorem scoped_rules_preserve_values {S V : Type} [DecidableEq S] (chars : S → List S)
+    (rich null : List (Rule S V)) (wf : WF chars (keyed rich) (keyed null))
+    (out : List (Rule S V)) (h : updateScoped chars rich null = .ok out) :
+    ∀ o ∈ out, ∀ e, covers o e = true →
+      ∀ n ∈ keyed null, n.par = o.par → covers n e = true → o.val = n.val := by
+  intro o ho e hoe n hn hp hne
+  obtain ⟨r, hr, a, ha, hoa⟩ := updateAll_mem chars (keyed rich) (keyed null) (keyed rich) out h o ho
+  exact updateOne_sound chars (keyed rich) (keyed null) wf r hr a ha o hoa e hoe n hn hp hne
+
+def kr0 : List (Rule String Nat) := [⟨"k", some ["a"], true, 1⟩, ⟨"k", some ["b"], true, 1⟩]
+def kn0 : List (Rule String Nat) := [⟨"k", some ["a", "b"], false, 3⟩]
+example : keyed kr0 = kr0 ∧ keyed kn0 = kn0 := by decide
+/-- the hypotheses of `scoped_rules_preserve_values` are satisfiable: shared kappa → per-edge kappa -/
+example : WF (fun s : String => [s]) kr0 kn0 := by
+  refine ⟨?_, ?_, ?_, ?_⟩
+  · intro r hr n hn hk
+    simp only [kr0, kn0, List.mem_cons, List.mem_nil_iff, or_false] at hr hn
+    subst hn
+    rcases hr with rfl | rfl <;> exact absurd hk (by decide)
+  · intro r1 h1 r2 h2 hp e c1 c2
+    simp only [kr0, List.mem_cons, List.mem_nil_iff, or_false] at h1 h2
+    rcases h1 with rfl | rfl <;> rcases h2 with rfl | rfl <;> first | rfl | (simp [covers] at c1 c2; simp_all)
+  · intro n1 h1 n2 h2 _ _ _ _
+    simp only [kn0, List.mem_cons, List.mem_nil_iff, or_false] at h1 h2
+    rw [h1, h2]
+  · intro n hn
+    simp only [kn0, List.mem_cons, List.mem_nil_iff, or_false] at hn
+    subst hn
+    rfl
+
+/-- non-vacuity: a shared kappa (null) into per-edge / clade kappa plus an unmatched edge-scoped
+term (rich); all four branches are used -/
+def exNull : List (Rule String Nat) :=
+  [⟨"kappa", some ["a", "b"], false, 3⟩, ⟨"kappa", some ["c"], true, 5⟩, ⟨"omega", some ["a"], true, 7⟩,
+   ⟨"omega", some ["b", "c"], false, 9⟩, ⟨"beta", none, false, 4⟩]
+def exRich : List (Rule String Nat) :=
+  [⟨"kappa", some ["a"], true, 1⟩, ⟨"kappa", some ["b"], true, 1⟩, ⟨"kappa", some ["c"], true, 1⟩,
+   ⟨"omega", none, false, 1⟩, ⟨"A/C", some ["a"], true, 1⟩, ⟨"beta", none, false, 1⟩]
+example : updateScoped (fun s => [s]) exRich exNull = .ok
+    [⟨"kappa", some ["a"], true, 3⟩, ⟨"kappa", some ["b"], true, 3⟩, ⟨"kappa", some ["c"], true, 5⟩,
+     ⟨"omega", some ["a"], true, 7⟩, ⟨"omega", some ["b"], true, 9⟩, ⟨"omega", some ["c"], true, 9⟩,
+     ⟨"A/C", some ["a"], true, 1⟩, ⟨"beta", none, false, 4⟩] := by decide
+
+/-- the well-formedness hypotheses are needed (both replayed on the real function; both inputs are
+outside the nested quantifier, so neither is a defect finding):
+(1) a null rule written `"edge": "Hu"` is matched through the CHARACTERS of its name, so a rich
+clade `["Hu","Ch"]` keeps its own value 1 although the null defines `(kappa, Hu) = 3`;
+(2) `edges: []` and no scope share the key `{par}`, so a free rich rule takes the value of an
+empty-scope null rule instead of the one that covers edge `a`. -/
+theorem scoped_rules_wf_needed_counter :
+    updateScoped (fun s : String => s.toList.map String.singleton)
+      [⟨"kappa", some ["Hu", "Ch"], false, (1 : Nat)⟩] [⟨"kappa", some ["Hu"], true, 3⟩]
+      = .ok [⟨"kappa", some ["Hu", "Ch"], false, 1⟩] ∧
+    updateScoped (fun s : String => [s])
+      [⟨"p", none, false, (1 : Nat)⟩] [⟨"p", some [], false, 5⟩, ⟨"p", some ["a"], false, 7⟩]
+      = .ok [⟨"p", none, false, 5⟩] := by
+  constructor <;> decide +kernel
+
+/-- more than one overlapping null scope for an edge-scoped rich rule is refused (ValueError) -/
+example : updateScoped (fun s : String => [s]) [⟨"p", some ["a", "b"], false, (1 : Nat)⟩]
+    [⟨"p", some ["a"], false, 5⟩, ⟨"p", some ["b"], false, 7⟩] = .error .valueError := by decide
+
+end ScopedSec
 
 end CogentModel.C16
